@@ -290,7 +290,12 @@ class Arr:
             return
         if isinstance(v, np.ndarray) and v.ndim == 0:
             v = v[()]
-        self.a[key] = v
+        try:
+            self.a[key] = v
+        except ValueError as e:
+            if self.kind == "torch":       # torch reports shape mismatches as RuntimeError
+                raise RuntimeError("shape mismatch in index assignment: %s" % e)
+            raise
 
     # ---- arithmetic
     def _oa(self, o):
